@@ -23,7 +23,10 @@ RULE = ("every .py file under pyrex/ is parsed; every import of, and every attri
         "third-party/stdlib module is a site and is resolved by executing the lookup (modules and classes are "
         "walked, the walk stops at the first instance); a site inside a try that catches "
         "ImportError/AttributeError counts as guarded; every package module that does not need the emptied data "
-        "files is additionally imported in its own fresh interpreter from a scratch copy.  "
+        "files is additionally imported in its own fresh interpreter from a scratch copy; a bounded walk over the public API of live "
+        "objects (6 groups, ~50 objects: every public attribute read, every public method called with every combination -- at most 48 -- "
+        "of values from a per-parameter-name menu) counts exceptions that say a third-party / stdlib name, attribute, keyword or "
+        "positional slot does not exist.  "
         "distinct_nontrivial = distinct fully resolved dotted references (e.g. numpy.fft.rfft)")
 ASSUMPTIONS = [
     "only the installed versions (numpy/scipy/h5py/python of /venv) are enumerated; other versions inside the "
@@ -65,6 +68,8 @@ def cases(tier, seed):
         mods.append(m)
     for m in sorted(set(mods)):
         cs.append({"kind": "import", "module": m})
+    for g in ("signals", "media", "rays", "detector", "particles", "files"):
+        cs.append({"kind": "walk", "group": g})
     return cs
 
 
@@ -475,6 +480,11 @@ def _import(case):
 
 
 def evaluate(case):
+    if case["kind"] == "walk":
+        from . import c20_walk
+        from ..engine import src as _src
+        _src.activate()
+        return c20_walk.evaluate(case)
     if case["kind"] == "static":
         return _static(case)
     if case["kind"] == "setup":
